@@ -2,4 +2,302 @@
 
 package sync
 
-func c32Gen(r *vhRng) string { return "const" }
+import (
+	"fmt"
+	"strconv"
+	"strings"
+)
+
+// Generator of C32 cases.  A block tree (main chain, forks, fragments hanging from junk parents, a
+// few inconsistent numbers) is cut into responses: root-to-leaf paths are split into consecutive
+// pieces, the pieces are shuffled over one to four Process calls (so later pieces can arrive before
+// earlier ones), duplicated, sent ascending or descending, and mutated: forged stated hashes (junk,
+// another block's hash, consistently forged links), missing header/body, broken links, wrong
+// direction, empty and uncompleted responses, justifications (finality moves), bad-listed blocks.
+// Announced (incomplete) blocks get body responses with one or several blocks.
+
+type c32Tree struct {
+	parent []int // index 0 unused
+	num    []int
+}
+
+func c32GenTree(r *vhRng) *c32Tree {
+	k := 1 + r.Intn(14)
+	if r.Chance(1, 12) {
+		k = 1 + r.Intn(3)
+	}
+	t := &c32Tree{parent: []int{-1}, num: []int{0}}
+	for i := 1; i <= k; i++ {
+		var p, n int
+		c := r.Intn(100)
+		switch {
+		case c < 10:
+			p = 900 + r.Intn(3)
+			n = 1 + r.Intn(6)
+		case c < 32:
+			p = r.Intn(i)
+			n = t.num[p] + 1
+		default:
+			p = i - 1
+			n = t.num[p] + 1
+		}
+		if r.Chance(1, 18) {
+			n += r.Pick(-1, 1, 2)
+			if n < 0 {
+				n = 0
+			}
+		}
+		t.parent = append(t.parent, p)
+		t.num = append(t.num, n)
+	}
+	return t
+}
+
+// path from the oldest ancestor inside the tree (excluding genesis) down to block b
+func (t *c32Tree) path(b int) []int {
+	var rev []int
+	for b >= 1 && b < len(t.parent) {
+		rev = append(rev, b)
+		b = t.parent[b]
+	}
+	out := make([]int, len(rev))
+	for i := range rev {
+		out[i] = rev[len(rev)-1-i]
+	}
+	return out
+}
+
+type c32Piece struct {
+	peer  byte
+	kind  byte
+	state byte
+	toks  []string
+}
+
+func (p c32Piece) String() string {
+	return string([]byte{p.peer, p.kind, p.state}) + ":" + strings.Join(p.toks, ",")
+}
+
+func c32Toks(ids []int) []string {
+	out := make([]string, len(ids))
+	for i, id := range ids {
+		out[i] = strconv.Itoa(id)
+	}
+	return out
+}
+
+func c32Rev(xs []string) []string {
+	out := make([]string, len(xs))
+	for i := range xs {
+		out[i] = xs[len(xs)-1-i]
+	}
+	return out
+}
+
+func (t *c32Tree) hashPick(r *vhRng) int {
+	if r.Chance(1, 2) {
+		return 900 + r.Intn(4)
+	}
+	return r.Intn(len(t.parent))
+}
+
+// mutate one piece (tokens are in ascending order here)
+func (t *c32Tree) mutate(r *vhRng, toks []string) []string {
+	if len(toks) == 0 {
+		return toks
+	}
+	out := append([]string{}, toks...)
+	i := r.Intn(len(out))
+	switch r.Intn(11) {
+	case 0, 1: // forged stated hash
+		out[i] += "f" + strconv.Itoa(t.hashPick(r))
+	case 2: // forged hash on the last or first block (the chain check cannot see it)
+		if r.Bool() {
+			i = len(out) - 1
+		} else {
+			i = 0
+		}
+		out[i] += "f" + strconv.Itoa(t.hashPick(r))
+	case 3:
+		out[i] += "h"
+	case 4:
+		out[i] += "b"
+	case 5: // broken link: drop a block
+		out = append(out[:i], out[i+1:]...)
+	case 6: // broken link: swap two
+		j := r.Intn(len(out))
+		out[i], out[j] = out[j], out[i]
+	case 7: // foreign block inserted
+		out = append(out[:i], append([]string{strconv.Itoa(1 + r.Intn(len(t.parent)-1))}, out[i:]...)...)
+	case 8: // duplicate block
+		out = append(out[:i], append([]string{out[i]}, out[i:]...)...)
+	case 9: // stated hash equal to the true one (a no-op forgery)
+		if !strings.ContainsAny(out[i], "hbjf") {
+			out[i] += "f" + out[i]
+		}
+	case 10:
+		out[i] += "hb"
+	}
+	return out
+}
+
+func c32Gen(r *vhRng) string {
+	if r.Chance(1, 500) {
+		return "const"
+	}
+	t := c32GenTree(r)
+	k := len(t.parent) - 1
+	nOps := 1 + r.Intn(4)
+	ops := make([][]c32Piece, nOps)
+	announce := make([][]int, nOps)
+	mutRate := r.Pick(0, 0, 6, 3)
+	justRate := r.Pick(0, 12, 5)
+
+	addPiece := func(ids []int) {
+		if len(ids) == 0 {
+			return
+		}
+		toks := c32Toks(ids)
+		for i := range toks {
+			if justRate > 0 && r.Chance(1, justRate) {
+				toks[i] += "j"
+			}
+		}
+		if mutRate > 0 && r.Chance(1, mutRate) {
+			toks = t.mutate(r, toks)
+		}
+		p := c32Piece{peer: byte('a' + r.Intn(4)), kind: 'A', state: 'c', toks: toks}
+		if r.Chance(1, 3) {
+			p.kind = 'D'
+			p.toks = c32Rev(toks)
+		}
+		if r.Chance(1, 40) { // wrong direction
+			p.toks = c32Rev(p.toks)
+		}
+		if r.Chance(1, 40) {
+			p.state = 'u'
+		}
+		at := r.Intn(nOps)
+		ops[at] = append(ops[at], p)
+		if r.Chance(1, 7) { // the same piece again, possibly in another call
+			at = r.Intn(nOps)
+			ops[at] = append(ops[at], p)
+		}
+	}
+
+	nPaths := 1 + r.Intn(3)
+	for pi := 0; pi < nPaths; pi++ {
+		path := t.path(1 + r.Intn(k))
+		if r.Chance(1, 3) { // the deepest block, so that paths are long
+			path = t.path(k)
+		}
+		if r.Chance(1, 4) && len(path) > 1 { // only a window of the path
+			a := r.Intn(len(path))
+			path = path[a:]
+		}
+		cuts := r.Intn(4)
+		start := 0
+		for c := 0; c < cuts && start < len(path); c++ {
+			end := start + 1 + r.Intn(len(path)-start)
+			addPiece(path[start:end])
+			start = end
+			if r.Chance(1, 8) && start < len(path) { // a gap
+				start++
+			} else if r.Chance(1, 8) && start > 0 { // an overlap
+				start--
+			}
+		}
+		addPiece(path[start:])
+	}
+
+	// announced blocks and body responses
+	if r.Chance(1, 3) {
+		n := 1 + r.Intn(3)
+		var ann []int
+		for i := 0; i < n; i++ {
+			b := 1 + r.Intn(k)
+			at := r.Intn(nOps)
+			announce[at] = append(announce[at], b)
+			ann = append(ann, b)
+		}
+		nb := 1 + r.Intn(2)
+		for i := 0; i < nb; i++ {
+			var toks []string
+			m := 1
+			if r.Chance(1, 3) {
+				m = 1 + r.Intn(3)
+			}
+			for j := 0; j < m; j++ {
+				b := ann[r.Intn(len(ann))]
+				if r.Chance(1, 6) {
+					b = 1 + r.Intn(k)
+				}
+				tok := strconv.Itoa(b)
+				if !r.Chance(1, 5) {
+					tok += "h"
+				}
+				if r.Chance(1, 12) {
+					tok += "b"
+				}
+				if r.Chance(1, 6) {
+					tok += "j"
+				}
+				if r.Chance(1, 12) {
+					tok += "f" + strconv.Itoa(t.hashPick(r))
+				}
+				toks = append(toks, tok)
+			}
+			p := c32Piece{peer: byte('a' + r.Intn(4)), kind: 'B', state: 'c', toks: toks}
+			at := r.Intn(nOps)
+			ops[at] = append(ops[at], p)
+		}
+	}
+	// empty / degenerate responses
+	if r.Chance(1, 10) {
+		at := r.Intn(nOps)
+		ops[at] = append(ops[at], c32Piece{peer: 'a', kind: byte(r.Pick('A', 'D', 'B')), state: 'c'})
+	}
+
+	var bad string = "-"
+	if r.Chance(1, 8) {
+		bad = strconv.Itoa(t.hashPick(r))
+		if r.Chance(1, 4) {
+			bad += "," + strconv.Itoa(1+r.Intn(k))
+		}
+	}
+
+	var blocks []string
+	for i := 1; i <= k; i++ {
+		blocks = append(blocks, fmt.Sprintf("%d:%d", t.parent[i], t.num[i]))
+	}
+	var opS []string
+	for i := 0; i < nOps; i++ {
+		for _, b := range announce[i] {
+			opS = append(opS, "I "+strconv.Itoa(b))
+		}
+		ps := ops[i]
+		// shuffle the results of one call
+		for j := len(ps) - 1; j > 0; j-- {
+			x := r.Intn(j + 1)
+			ps[j], ps[x] = ps[x], ps[j]
+		}
+		if len(ps) > 12 {
+			ps = ps[:12]
+		}
+		if len(ps) == 0 {
+			if r.Chance(1, 3) {
+				opS = append(opS, "P")
+			}
+			continue
+		}
+		ss := make([]string, len(ps))
+		for j, p := range ps {
+			ss[j] = p.String()
+		}
+		opS = append(opS, "P "+strings.Join(ss, "/"))
+	}
+	if len(opS) == 0 {
+		opS = append(opS, "P")
+	}
+	return strings.Join(blocks, ",") + " " + bad + "|" + strings.Join(opS, ";")
+}
